@@ -9,7 +9,11 @@ use std::marker::PhantomPinned;
 use std::ops::Deref;
 use std::ops::DerefMut;
 use std::unreachable;
+#[cfg(not(metrique_verif_loom))]
 use tokio::sync::oneshot;
+// verification builds only: the real tokio oneshot behind a scheduler-visible marker
+#[cfg(metrique_verif_loom)]
+use metrique_writer::verif_tokio::sync::oneshot;
 
 fn make_slot<T: CloseValue>(initial_value: T) -> (SlotGuard<T>, Waiting<T::Closed>) {
     let (tx, rx) = oneshot::channel();
